@@ -55,6 +55,51 @@ fn is_keywordish(tok: &str) -> bool {
     tok.chars().all(|c| c.is_ascii_alphanumeric() || c == '_' || c == '-') && tok.len() > 1
 }
 
+/// identifier names of every length 1..=16 (and 24, 40) with one non-letter character (or an upper
+/// case letter) at every position: a name's length and the place of `-`, `_` or a digit in it are
+/// input dimensions of the tokenizer (look-ahead windows, anchored patterns)
+pub fn name_grid() -> Vec<String> {
+    let mut v = vec![];
+    for len in (1..=16usize).chain([24, 40]) {
+        for pos in 0..len {
+            if len > 16 && pos % 5 != 0 && pos != len - 1 {
+                continue;
+            }
+            for special in ['-', '_', '7', 'Q'] {
+                let name: String = (0..len).map(|i| if i == pos { special } else { (b'a' + ((i * 7 + len) % 26) as u8) as char }).collect();
+                v.push(name);
+            }
+        }
+    }
+    v
+}
+
+/// `arity` distinct names of exactly `len` characters (`len >= 2` for more than 13 names); every other
+/// name carries its index in front, the others at the end (so that names share long prefixes / suffixes)
+pub fn sized_names(arity: usize, len: usize) -> Vec<String> {
+    let letters: Vec<char> = "abcdeghijklmnopq".chars().collect();
+    let mut v: Vec<String> = (0..arity)
+        .map(|i| {
+            if len == 1 {
+                letters[i % letters.len()].to_string()
+            } else if len == 2 {
+                format!("{}{}", letters[i % letters.len()], i % 10)
+            } else {
+                let idx = format!("{:02}", i);
+                let fill = "Nuclear_factor_kappa_light_chain_enhancer_of_activated_B_cells_and_more_text_to_fill_up_two_hundred_characters_of_a_single_variable_name_which_nobody_would_type_but_a_tool_could_generate_from_an_ontology_term";
+                if i % 2 == 0 {
+                    format!("{}{}", &fill[..len - 2], idx)
+                } else {
+                    format!("g{}{}", idx, &fill[..len - 3])
+                }
+            }
+        })
+        .collect();
+    v.sort();
+    v.dedup();
+    v
+}
+
 fn emit_text(cx: &mut Ctx, prop: &str, text: &str, nt: bool) {
     cx.emit(prop, "tokens", &[Arg::X(text.to_string())], nt);
     cx.emit(prop, "parse", &[Arg::X(text.to_string())], nt);
@@ -147,7 +192,27 @@ pub fn gen_c12(cx: &mut Ctx, prop: &str) {
             }
         }
     }
-    let names = ["a", "b", "x_10", "nota", "tv", "orb", "f-1", "andy", "T1"];
+    // names of every length with a special character at every position, bare and in contexts
+    for n in name_grid() {
+        for text in [n.clone(), format!("!{}", n), format!("({})", n), format!("{}&a", n), format!("a|{}", n), format!("{} ^ a", n), format!("true^{}", n), format!("not {} or {}", n, n)] {
+            emit_text(cx, prop, &text, true);
+        }
+    }
+    // every constant spelling directly in front of / behind every operator spelling, with and without a gap
+    {
+        let consts = ["true", "TRUE", "True", "t", "T", "1", "false", "FALSE", "False", "f", "F", "0"];
+        let opers = ["&", "&&", "and", "AND", "∧", "^", "*", "|", "||", "or", "OR", "∨", "v", "V", "+"];
+        for c in consts {
+            for o in opers {
+                for gap in ["", " "] {
+                    emit_text(cx, prop, &format!("{}{}{}{}a", c, gap, o, gap), true);
+                    emit_text(cx, prop, &format!("a{}{}{}{}", gap, o, gap, c), true);
+                    emit_text(cx, prop, &format!("(b | !{}{}{}{}a) & c", c, gap, o, gap), true);
+                }
+            }
+        }
+    }
+    let names = ["a", "b", "x_10", "nota", "tv", "orb", "f-1", "andy", "T1", "signal-1", "receptor-alpha", "abcdef-g", "NF-kB_active"];
     for _ in 0..cx.scale * if cx.thorough { 200000 } else { 6000 } {
         let d = 1 + cx.rng.below(4);
         let s = sentence(&mut cx.rng, d, &names);
@@ -273,6 +338,12 @@ pub fn gen_c14(cx: &mut Ctx) {
             cx.emit("C14", "print", &[Arg::F(Val::E(e))], true);
         }
     }
+    // names of every length with `-`, `_`, a digit or an upper case letter at every position
+    for n in name_grid() {
+        for e in [lit(&n), !lit(&n), lit(&n) & lit("a"), lit("a") | !lit(&n)] {
+            cx.emit("C14", "roundtrip", &[Arg::F(Val::E(e))], true);
+        }
+    }
     for e in crate::gen::wide_exprs(&mut cx.rng, &names(&["a", "b", "x_10"]), true) {
         cx.emit("C14", "roundtrip", &[Arg::F(Val::E(e.clone()))], true);
         cx.emit("C14", "print", &[Arg::F(Val::E(e))], true);
@@ -298,6 +369,15 @@ pub fn gen_c14(cx: &mut Ctx) {
         let nt = e.to_string().contains('&') && e.to_string().contains('|');
         cx.emit("C14", "roundtrip", &[Arg::F(Val::E(e.clone()))], nt);
         cx.emit("C14", "print", &[Arg::F(Val::E(e))], nt);
+    }
+    // realistic (long, hyphenated) names; a small pool, since the oracle enumerates the assignments
+    let real = names(&["p53", "NF-kB", "signal-1", "receptor-alpha", "Cdc25-P", "ERK1_2", "Epidermal_growth_factor_receptor-active", "abcdef-g"]);
+    for _ in 0..cx.scale * if cx.thorough { 10000 } else { 1000 } {
+        let depth = 2 + cx.rng.below(4);
+        let e = random_tree(&mut cx.rng, depth, &real, true, 2);
+        if e.to_string().len() <= 4000 {
+            cx.emit("C14", "roundtrip", &[Arg::F(Val::E(e))], true);
+        }
     }
     let ns = names(&["a", "b", "x_10", "-", "nota", "v1", "T_", "9", "10", "1a", "0_x", "t1", "f0", "or_", "and1"]);
     for _ in 0..cx.scale * if cx.thorough { 50000 } else { 4000 } {
@@ -627,6 +707,17 @@ pub fn gen_c16(cx: &mut Ctx) {
             }
         }
     }
+    // arity x name length: headers of long names on wide files
+    for (arity, len) in [(1usize, 13usize), (3, 13), (3, 40), (6, 12), (6, 13), (6, 40), (8, 13), (9, 12), (9, 13), (9, 14), (10, 20)] {
+        let ns = sized_names(arity, len);
+        let bits = random_bits(&mut cx.rng, ns.len());
+        let cols: Vec<usize> = (0..ns.len()).rev().collect();
+        let rows: Vec<usize> = (0..1usize << ns.len()).collect();
+        for header in [true, false] {
+            let text = csv_text(&mut cx.rng, &ns, &bits, &cols, &rows, header, 0);
+            emit_csv(cx, &text, true);
+        }
+    }
     // three variables: sampled permutations
     let ns3 = names(&["c", "a", "b"]);
     for _ in 0..cx.scale * if cx.thorough { 20000 } else { 1200 } {
@@ -806,6 +897,19 @@ pub fn gen_c17(cx: &mut Ctx) {
             cx.emit("C17", "csv.round", &[Arg::F(t), Arg::A(s(fi)), Arg::A(s(fo))], true);
         }
     }
+    // arity x name length (either alone is covered above; a header helper may treat wide tables or
+    // long names specially)
+    for arity in [1usize, 2, 3, 6, 8, 9, 10] {
+        for len in [1usize, 6, 7, 11, 12, 13, 14, 20, 40] {
+            let ns = sized_names(arity, len);
+            let bits = random_bits(&mut cx.rng, ns.len());
+            let t = fn_as(1, &ns, &bits);
+            let fi = *cx.rng.pick(&FMTS);
+            let fo = *cx.rng.pick(&FMTS);
+            cx.emit("C17", "csv.to", &[Arg::F(t.clone()), Arg::A(s(fi)), Arg::A(s(fo))], true);
+            cx.emit("C17", "csv.round", &[Arg::F(t), Arg::A(s(fi)), Arg::A(s(fo))], true);
+        }
+    }
     // other identifier names
     for ns in [
         names(&["x_0", "x_1"]), names(&["B", "aa", "é"]), names(&["out", "result"]),
@@ -826,6 +930,7 @@ pub fn gen_c17(cx: &mut Ctx) {
 }
 
 pub fn gen_c18(cx: &mut Ctx) {
+    gen_c18_wide(cx);
     let mut sets = table_name_sets(cx.thorough);
     sets.push(names(&["averyveryverylongname", "x_10", "é"]));
     sets.push(names(&["B", "aa"]));
@@ -864,6 +969,25 @@ pub fn gen_c18(cx: &mut Ctx) {
                     crate::ops::fmt_of("Word"),
                 );
                 cx.emit("C18", "display", &[Arg::F(t.clone()), Arg::X(rendered)], nt);
+            }
+        }
+    }
+}
+
+/// arity x name length: the total width of a rendering (framed styles may fold or clip wide tables)
+fn gen_c18_wide(cx: &mut Ctx) {
+    let grid: &[(usize, usize)] = if cx.thorough {
+        &[(1, 188), (1, 200), (2, 100), (3, 70), (6, 30), (6, 34), (6, 40), (9, 13), (9, 22), (10, 20), (13, 13), (13, 14)]
+    } else {
+        &[(1, 200), (3, 70), (6, 34), (6, 40), (9, 13), (10, 20), (13, 13)]
+    };
+    for (arity, len) in grid {
+        let ns = sized_names(*arity, *len);
+        let bits = random_bits(&mut cx.rng, ns.len());
+        let t = fn_as(1, &ns, &bits);
+        for st in STYLES {
+            for (fi, fo) in [("Number", "Word"), ("CapitalizedWord", "Character")] {
+                cx.emit("C18", "render", &[Arg::F(t.clone()), Arg::A(s(st)), Arg::A(s(fi)), Arg::A(s(fo))], true);
             }
         }
     }
